@@ -391,9 +391,10 @@ uint32_t TCP::calculate_options_size() const {
     for (options_type::const_iterator iter = options_.begin(); iter != options_.end(); ++iter) {
         const option& opt = *iter;
         options_size += sizeof(uint8_t);
-        // SACK_OK contains length but not data
-        if (opt.data_size() || opt.option() == SACK_OK) {
-            options_size += sizeof(uint8_t);    
+        // Every option other than EOL and NOP is written with a length
+        // octet (see write_option), even when it carries no data
+        if (opt.option() > NOP) {
+            options_size += sizeof(uint8_t);
             options_size += static_cast<uint16_t>(opt.data_size());
         }
     }
